@@ -318,6 +318,26 @@ def deliver (ord : List Group → List Group) (vals : List Validator) (s : BStat
     | .ok r => r
     | .error f => (s, .failed f)
 
+/-- the messages of one transaction after the first, on the evolving copy; the first error or panic aborts -/
+def handleAll (ord : List Group → List Group) (vals : List Validator) : BState → List Msg → R (BState × List Out)
+  | s, [] => .ok (s, [])
+  | s, m :: ms =>
+    match handle ord vals s m with
+    | .error f => .error f
+    | .ok (s1, o) =>
+      match handleAll ord vals s1 ms with
+      | .error f => .error f
+      | .ok (s2, os) => .ok (s2, o :: os)
+
+/-- DeliverTx of a transaction with several messages (baseapp.runTx): ValidateBasic of every message first, then
+    the handlers in order on ONE copy of the state, which is kept only if every message succeeded — a later message
+    that fails discards the writes of the earlier ones. -/
+def deliverTx (ord : List Group → List Group) (vals : List Validator) (s : BState) (ms : List Msg) : BState × List Out :=
+  if !ms.all validateBasic then (s, [.failed (.err .validate)])
+  else match handleAll ord vals s ms with
+    | .ok r => r
+    | .error f => (s, [.failed f])
+
 /-! ### histories -/
 
 /-- one step of a history: the staking module changes the validator set (environment), or a message is delivered -/
